@@ -15,7 +15,7 @@ BOUND = ("strategies: dimension-wise (GlobalTrapezoidalGrid boundary on/off, ver
          "cell (TrapezoidalGrid with boundary, lmin=lmax=2); d in {2,3}; Integration with a reference solution that is (a) an accurate "
          "quadrature of the integrand, (b) an arbitrary non-zero vector, (c) the zero vector, (d) the exact analytic value for dyadic constant/coordinate integrands (error exactly 0); norms {1,2,inf}; scalar and 2-3 component "
          "integrands (Genz family, random smooth, multilinear); tol in {-1,0,1e-2,1e2}; max_evaluations in {0, n0-1, n0, n_j-1, n_k-1, None}, "
-         "min_evaluations in {1, n0, n0+1, n_j, n_k} where n_0..n_k (k<=8, d=3: k<=5, polynomial integrands: k<=3) are the point counts of the unlimited run; "
+         "min_evaluations in {1, n0, n0+1, n_j, n_k} where n_0..n_k (k<=8, d=3: k<=5, polynomial integrands: k<=3, d=3: k<=2; histories cut when n_j>2500) are the point counts of the unlimited run; "
          "seeded pseudo-random combinations")
 RULE = BOUND + "; a case is one (configuration, integrand, reference, tol, min, max); non-trivial = at least one refinement happened or a limit was met at the first evaluation"
 CLAUSES = {
@@ -57,7 +57,7 @@ def scout(case, max_refinements):
     inner = s.refine
 
     def limited():
-        if log["seq"].count("R") >= max_refinements:
+        if log["seq"].count("R") >= max_refinements or log["evals"][-1]["npts"] > 2500:
             raise _StopScout()
         return inner()
 
@@ -74,7 +74,7 @@ def max_ref(case):
     """Refinement steps of the scouting run.  Polynomial integrands have all-zero error indicators, the library then refines
     everything in every step (exponential growth), so those histories are kept short."""
     if all(c[0] in ("const", "mono", "lincomb") for c in case["comps"]):
-        return 3
+        return 3 if len(case["cfg"]["a"]) == 2 else 2
     return 8 if len(case["cfg"]["a"]) == 2 else 5
 
 
